@@ -1744,9 +1744,15 @@ def check_assign(ck, tree):
     # the result of copy_recursive becomes the root
     direct = [c for c in copies if is_call(c, "copy_recursive")]
     for c in direct:
-        par = fn.parent(c)
-        while par is not None and par["k"] in CASTS + ("ParenExpr", "ExprWithCleanups", "MaterializeTemporaryExpr", "CXXBindTemporaryExpr"):
-            par = fn.parent(par)
+        par, below = fn.parent(c), c
+        # the value of the call is the value of the enclosing expression: through casts / parentheses, and as an arm of
+        # `cond ? copy_recursive(x) : y` (whenever the call runs, the conditional evaluates to its result) or the right
+        # operand of a comma
+        while par is not None and (
+                par["k"] in CASTS + ("ParenExpr", "ExprWithCleanups", "MaterializeTemporaryExpr", "CXXBindTemporaryExpr") or
+                (par["k"] == "ConditionalOperator" and len(kids(par)) == 3 and kids(par)[0] is not below) or
+                (par["k"] == "BinaryOperator" and par.get("op") == "," and len(kids(par)) == 2 and kids(par)[1] is below)):
+            par, below = fn.parent(par), par
         stored = False
         if par is not None:
             b = match.binop(par, ("=",))
